@@ -469,6 +469,16 @@ def check(ctx: Ctx, col: Collector, tier: str) -> None:
                                       *([] if good else [f"a moved declaration `read` takes the alias of `from {qn.rsplit('.', 1)[0]} import {qn.rsplit('.', 1)[1]} as fread` ({label}): with "
                                                          f"`from ._impl import read, fast_read as fread` both functions are written as `fread` into one stub file and `read` is lost"
                                                          if not want_alias else "the alias of the declaration's own import is not applied"]))
+    # an import under a private alias (`from .shapes import Circle as _Circle`) publishes nothing: the declaration stays where it is, under its own name
+    qi = Obj("QualifiedImport", (("qualified_name", Const(".shapes.Circle")), ("alias", Const("_Circle"))))
+    mod = Obj("Module", (("id", Const("pkg")), ("qualified_imports", ListV((qi,)))))
+    nodeo = Obj("Class", (("name", Const("Circle")), ("reexported_by", ListV((mod,)))))
+    pouts = ctx.interp(hfi, inline={"is_internal"}).run_function(hfi, {"self": Sym("self"), "node": nodeo}, gen_state({"self.reexport_modules": Sym("self.reexport_modules")}))
+    moved_private = [o for o in pouts if o.kind == "return" and o.value == Const(True) and any(e.kind == "store" and e.target == "node.name" and e.args and e.args[0] == Const("_Circle") for e in o.effects)]
+    (col.ok if not moved_private else col.bad)("C03.MOVE", f"{GEN}::{GENCLS}._has_node_shorter_reexport::private-alias-moves-nothing", repo.loc(GEN, hfi.node),
+                                               "a re-export under a private alias does not move the declaration" if not moved_private else f"{len(moved_private)} path(s) move the class and rename it to `_Circle`",
+                                               *([] if not moved_private else ["a public class that a package imports under a private alias (`pk/__init__.py: from .shapes import Circle as _Circle`) is moved to the package and "
+                                                                               "declared as `class _Circle`; the public `pk.shapes.Circle` disappears from the stubs (C04: a private name is emitted)"]))
     for fname, arg, extra in (("_create_class_string", "class_", {"class_indentation": Const("")}), ("_create_function_string", "function", {"indentations": Const(""), "is_method": Const(False)})):
         fi = repo.function(GEN, f"{GENCLS}.{fname}")
         outs = ctx.interp(fi).run_function(fi, {"self": Sym("self"), arg: Sym(arg), "in_reexport_module": Const(False), **extra}, gen_state())
